@@ -121,7 +121,16 @@ def _write_source(b, t, variant):
         parts = es[1].split(".")
         fld = [p for p in parts if not p.startswith("@") and p not in ("self", "0")]
         return (w, en, fld[0] if fld else es[1])
-    if es[0] == "var":
+    def flag_tree(x):
+        x = mir.strip_casts(x)
+        if not isinstance(x, tuple) or not x:
+            return False
+        if x[0] in ("var", "const", "constdef"):
+            return True
+        if x[0] == "bin" and x[1] in ("BitOr", "Add", "BitXor"):
+            return flag_tree(x[2]) and flag_tree(x[3])
+        return False
+    if es[0] == "var" or (es[0] == "bin" and flag_tree(es)):
         return (w, en, "flags")
     sh = mir.show(es)
     # loop items: zip(ports, ids) -> .0 = ports, .1 = ids ; plain iteration over ports
